@@ -44,6 +44,8 @@ func ParseRemedyReqRunResult(raw string) (RemedyReqRunResult, error) {
 		res = ReqModifiedRequest
 	case ReqModifiedHeaders.String():
 		res = ReqModifiedHeaders
+	case ReqGenerateRequest.String():
+		res = ReqGenerateRequest
 	default:
 		return ReqNoOp, fmt.Errorf(
 			"RemedyReqRunResult %v is not recognized",
